@@ -6,8 +6,8 @@ CONSTANTS
   Other = "K"
   Rcpt = "R"
   AmtVals = {0, 1, 2}
-  GasVals = {0, 1, 3}
-  MaxSteps = 3
+  GasVals = {0, 2, 4}
+  MaxSteps = 4
   MaxDepth = 2
   Bug = "none"
   ExportOn = TRUE
